@@ -1,4 +1,5 @@
 import XModel.Cache
+import XModel.TableNum
 /-!
 # Executable model of `xdeps/table.py` (L5 of DESIGN.md): name look-up (C07) and row selection (C08)
 
@@ -267,6 +268,7 @@ inductive Sel where
   | slice (a b c : Bound)
   | all                                  -- `None`
   | tuple (l : List Sel)
+  | range (lo hi : Option Cell) (col : String)   -- `lo:hi:'col'` with bounds that are numbers of any kind (floats)
 
 /-- what `_get_row_indices` returns: a Python slice or a list of positions -/
 inductive Ix where
@@ -363,6 +365,40 @@ def valueRange (col : List Cell) (lo hi : Option Cell) : Except TErr Ix :=
     .ok (.idx (((enumFrom 0 col).filter (fun p => (rangeOk lo hi p.2).getD false)).map (fun p => (p.1 : Int))))
   else .error .typeError
 
+/-! #### value ranges over any numbers (theorems: `XModel/TableRangeF.lean`) -/
+
+/-- `rangeOk` over an arbitrary comparison of cells (`none` = the comparison raises) -/
+def rangeOkBy (le : Cell → Cell → Option Bool) (lo hi : Option Cell) (x : Cell) : Option Bool :=
+  match lo, hi with
+  | some l, some h => (match le l x, le x h with | some p, some q => some (p && q) | _, _ => none)
+  | some l, none => le l x
+  | none, some h => le x h
+  | none, none => some true
+
+/-- `valueRange` over an arbitrary comparison of cells: `np.where((col >= lo) & (col <= hi))[0]` -/
+def valueRangeBy (le : Cell → Cell → Option Bool) (col : List Cell) (lo hi : Option Cell) : Except TErr Ix :=
+  if col.all (fun x => (rangeOkBy le lo hi x).isSome) then
+    .ok (.idx (((enumFrom 0 col).filter (fun p => (rangeOkBy le lo hi p.2).getD false)).map (fun p => (p.1 : Int))))
+  else .error .typeError
+
+/-- the number a cell denotes: an integer cell its value, a float cell what its token reads as (`XModel/TableNum.lean`:
+    decimals, `nan`, `inf`, `-inf`); a string cell denotes none (numpy: `'s0' >= 1` is a `TypeError`) -/
+def cellNum : Cell → Option Num
+  | .int i => some (.fin i 0)
+  | .flt tok => parseNum tok
+  | .str _ => none
+
+/-- `a <= b` on numeric cells of either kind, with IEEE's reading of NaN and the infinities (`numLe`) -/
+def cellLeF (a b : Cell) : Option Bool :=
+  match cellNum a, cellNum b with
+  | some x, some y => some (numLe x y)
+  | _, _ => none
+
+def rangeOkF (lo hi : Option Cell) (x : Cell) : Option Bool := rangeOkBy cellLeF lo hi x
+
+/-- the value-range selector on a column of numbers of any kind -/
+def valueRangeF (col : List Cell) (lo hi : Option Cell) : Except TErr Ix := valueRangeBy cellLeF col lo hi
+
 /-- `_get_row_where_col(col, value)`: first row where the column equals the value -/
 def rowWhereCol (c : List Cell) (v : Cell) : Except TErr Int :=
   match (enumFrom 0 c).find? (fun p => p.2 = v) with
@@ -440,6 +476,14 @@ def getRowIndices (t : Tbl) (m : String → Match) : Sel → Tbl × Except TErr 
   | .all => (t, .ok (.slice none none none))
   | .pos i => (t, .ok (.idx [i]))
   | .tuple _ => (t, .error .valueError)
+  | .range lo hi cname =>
+    -- the value-range branch again, for a column and bounds that need not be integers
+    match t.col cname with
+    | none => (t, .error .keyError)
+    | some col =>
+      match lo, hi with
+      | none, none => (t, .ok (.slice none none none))
+      | _, _ => (t, valueRangeF col lo hi)
 
 /-- positions denoted by an `Ix` in a table of `n` rows: `np.arange(n)[ix]` (with numpy's wrap-around
     of negative positions and `IndexError` outside) -/
